@@ -406,7 +406,8 @@ def EntryValid (g : Game P μ) (p : P) (e : Entry μ) : Prop :=
 
 def TTValid (g : Game P μ) (tt : P → Option (Entry μ)) : Prop := ∀ p e, tt p = some e → EntryValid g p e
 
-/-- **the SameDraft restriction**: `draft p` is the remaining depth with which `p` is searched; no entry is deeper.
+/-- **the SameDraft restriction**: `draft p` is the remaining depth with which `p` is searched (it drops by one from a
+node above the horizon to its children); no entry is deeper.
 Then an entry accepted by the probe (`e.depth ≥ draft p`) has exactly the remaining draft.  For a table keyed by the
 full position (clocks included) this holds for every depth, because the ply of a position is determined by its clocks;
 for the engine's table, keyed by a hash that ignores the clocks, it needs `d ≤ 3` (C08 stops there). -/
@@ -521,7 +522,7 @@ theorem inv_store [DecidableEq P] (g : Game P μ) (draft : P → Nat) (s : TStat
 /-- **alpha-beta with transposition table, killer/PV/TT-move ordering = minimax** (fail-soft contract), under the
 SameDraft restriction; the table invariants are preserved by the stores -/
 theorem abT_ok [DecidableEq P] (g : Game P μ) (hr : Heur P μ H) (ho : hr.IsOrder) (hleaf : LeafOk g)
-    (draft : P → Nat) (hdraft : ∀ p m, m ∈ g.moves p → draft (g.child p m) + 1 = draft p) :
+    (draft : P → Nat) (hdraft : ∀ p m, m ∈ g.moves p → 0 < draft p → draft (g.child p m) + 1 = draft p) :
     ∀ d p α β s, draft p = d → g.loss ≤ α → α < β → β ≤ -g.loss → Inv g draft s →
       Ok (mm g d p) (abT g hr d p α β s).1.1 α β ∧ Inv g draft (abT g hr d p α β s).2 := by
   intro d
@@ -575,7 +576,7 @@ theorem abT_ok [DecidableEq P] (g : Game P μ) (hr : Heur P μ H) (ho : hr.IsOrd
         have hloop := abTLoop_ok g draft g.loss (abT g hr d) (mm g d) (g.child p)
           (fun s m => { s with hints := hr.onCut s.hints (d + 1) p m }) (fun m => m ∈ g.moves p)
           (fun _ _ => rfl)
-          (fun m a b s hm ha hab hb hs => ih (g.child p m) a b s (by have := hdraft p m hm; omega) ha hab hb hs)
+          (fun m a b s hm ha hab hb hs => ih (g.child p m) a b s (by have := hdraft p m hm (by omega); omega) ha hab hb hs)
           (hr.order s.hints (s.tt p) (d + 1) p (g.moves p)) α' α' β' g.loss g.loss none s
           (fun m hm => (ho _ _ _ _ _).mem_iff.mp hm) hs (by omega) (by omega) w3 (by omega)
           (fun _ => Int.le_refl _) (fun _ => rfl)
@@ -604,7 +605,7 @@ theorem abT_ok [DecidableEq P] (g : Game P μ) (hr : Heur P μ H) (ho : hr.IsOrd
 
 /-- full window at the root, with transposition table and heuristics: the exact minimax value -/
 theorem abT_root_exact [DecidableEq P] (g : Game P μ) (hr : Heur P μ H) (ho : hr.IsOrder) (hleaf : LeafOk g)
-    (draft : P → Nat) (hdraft : ∀ p m, m ∈ g.moves p → draft (g.child p m) + 1 = draft p)
+    (draft : P → Nat) (hdraft : ∀ p m, m ∈ g.moves p → 0 < draft p → draft (g.child p m) + 1 = draft p)
     (d : Nat) (p : P) (s : TState P μ H) (hd : draft p = d) (hs : Inv g draft s) (hneg : g.loss < 0)
     (hlo : g.loss ≤ mm g d p) (hhi : mm g d p ≤ -g.loss) :
     (abT g hr d p g.loss (-g.loss) s).1.1 = mm g d p ∧ Inv g draft (abT g hr d p g.loss (-g.loss) s).2 := by
@@ -761,5 +762,251 @@ theorem game_leaf_bound (qorder : Pos → List Move → List Move) (p : Pos) :
   split
   · exact Qexact_bound chess.qgame 176000 (fun p => standPat_bound p.1 p.1.turn) _ _
   · exact standPat_bound p.1 p.1.turn
+
+/-! ## The board instance: forced mates -/
+
+/-- minimax value of a position without `searchmoves` restriction -/
+def V (d : Nat) (b : Board) : Int := mm game d (b, [])
+
+theorem moves_nil (b : Board) : game.moves (b, []) = genLegal b := by
+  simp [game, SearchGame.game, chess, rootMoves]
+
+theorem make_turn (b : Board) (m : Move) : (make b m).turn = 1 - b.turn := rfl
+theorem make_fullmove (b : Board) (m : Move) : (make b m).fullmove = b.fullmove + b.turn := rfl
+
+theorem V_term (d : Nat) (b : Board) (h : genLegal b = []) : V d b = Search.evalFor b b.turn false := by
+  cases d <;> simp [V, mm, moves_nil, h] <;> rfl
+
+theorem V_zero (b : Board) (h : genLegal b ≠ []) : -176000 ≤ V 0 b ∧ V 0 b ≤ 176000 := by
+  have : V 0 b = game.leafExact (b, []) := by simp [V, mm, moves_nil, h]
+  rw [this]
+  exact game_leaf_bound byMvvLva (b, [])
+
+theorem V_succ (d : Nat) (b : Board) (h : genLegal b ≠ []) :
+    V (d + 1) b = mmFold (fun p => V d p.1) lossScore ((genLegal b).map fun m => ((make b m, []) : Pos)) := by
+  have : V (d + 1) b = mmFold (mm game d) lossScore (game.children (b, [])) := by
+    simp [V, mm, moves_nil, h]; rfl
+  rw [this]
+  have hc : game.children (b, []) = (genLegal b).map fun m => ((make b m, []) : Pos) := by
+    unfold Game.children; rw [moves_nil]; rfl
+  rw [hc]
+  apply mmFold_congr
+  intro c hc
+  obtain ⟨m, _, rfl⟩ := List.mem_map.mp hc
+  rfl
+
+/-- clocks in the range where mate scores and static values cannot be confused -/
+def Small (b : Board) (d : Nat) : Prop := b.turn ≤ 1 ∧ b.fullmove + d < 1000000
+
+theorem small_child {b : Board} {d : Nat} (h : Small b (d + 1)) (m : Move) : Small (make b m) d := by
+  unfold Small at *
+  rw [make_turn, make_fullmove]
+  omega
+
+theorem term_value' (b : Board) :
+    Search.evalFor b b.turn false = if isCurrentInCheck b then lossScore + (b.fullmove : Int) else 0 := by
+  unfold Search.evalFor Search.factor evaluate
+  have hd := drawScore_val
+  have hl : lossScore = -winScore := rfl
+  by_cases h : (b.turn == 0) = true <;> by_cases hc : isCurrentInCheck b = true <;> simp [h, hc, hd, hl] <;> omega
+
+/-- every value lies between "mated on the spot" and "mates with the next move" -/
+theorem V_bounds : ∀ d b, Small b d →
+    lossScore + (b.fullmove : Int) ≤ V d b ∧ V d b ≤ winScore - ((b.fullmove : Int) + (b.turn : Int)) := by
+  have hw := winScore_val
+  have hl := lossScore_val
+  intro d
+  induction d with
+  | zero =>
+    intro b hs
+    obtain ⟨h1, h2⟩ := hs
+    by_cases ht : genLegal b = []
+    · rw [V_term 0 b ht, term_value']
+      split <;> omega
+    · have := V_zero b ht; omega
+  | succ d ih =>
+    intro b hs
+    have hs' := hs
+    obtain ⟨h1, h2⟩ := hs
+    by_cases ht : genLegal b = []
+    · rw [V_term _ b ht, term_value']
+      split <;> omega
+    · rw [V_succ d b ht]
+      constructor
+      · obtain ⟨m, hm⟩ := List.exists_mem_of_ne_nil _ ht
+        have hmem : ((make b m, []) : Pos) ∈ (genLegal b).map fun m => ((make b m, []) : Pos) :=
+          List.mem_map.mpr ⟨m, hm, rfl⟩
+        have h3 := neg_le_mmFold (fun p => V d p.1) lossScore _ _ hmem
+        have h4 := (ih (make b m) (small_child hs' m)).2
+        simp only at h3
+        rw [make_turn, make_fullmove] at h4
+        omega
+      · apply mmFold_le _ _ _ _ (by omega)
+        intro c hc
+        obtain ⟨m, _, rfl⟩ := List.mem_map.mp hc
+        have h4 := (ih (make b m) (small_child hs' m)).1
+        rw [make_fullmove] at h4
+        simp only
+        omega
+
+theorem mateFull_grandchild (b : Board) (m m' : Move) (n : Nat) (ht : b.turn ≤ 1) :
+    mateFull (make (make b m) m') n = mateFull b (n + 1) := by
+  unfold mateFull
+  rw [make_turn, make_turn, make_fullmove, make_fullmove, make_turn]
+  omega
+
+/-- completeness: a forced mate in `n` is seen by the depth `2n-1` minimax -/
+theorem forcedMate_value : ∀ n b, Small b (2 * n) → ForcedMate n b → winScore - mateFull b n ≤ V (2 * n - 1) b := by
+  have hw := winScore_val
+  have hl := lossScore_val
+  intro n
+  induction n with
+  | zero => intro b _ h; exact absurd h (by simp [ForcedMate])
+  | succ k ih =>
+    intro b hs hf
+    obtain ⟨m, hm, hk⟩ := hf
+    have hne : genLegal b ≠ [] := fun h => by rw [h] at hm; cases hm
+    have hd : 2 * (k + 1) - 1 = 2 * k + 1 := by omega
+    rw [hd, V_succ _ b hne]
+    have hmem : ((make b m, []) : Pos) ∈ (genLegal b).map fun m => ((make b m, []) : Pos) :=
+      List.mem_map.mpr ⟨m, hm, rfl⟩
+    have h3 := neg_le_mmFold (fun p => V (2 * k) p.1) lossScore _ _ hmem
+    simp only at h3
+    obtain ⟨h1, h2⟩ := hs
+    rcases hk with ⟨hnil, hchk⟩ | ⟨hne', hall⟩
+    · rw [V_term _ _ hnil, term_value', hchk] at h3
+      simp only [if_true] at h3
+      rw [make_fullmove] at h3
+      unfold mateFull
+      omega
+    · cases k with
+      | zero =>
+        obtain ⟨m', hm'⟩ := List.exists_mem_of_ne_nil _ hne'
+        exact absurd (hall m' hm') (by simp [ForcedMate])
+      | succ k' =>
+        have e : V (2 * (k' + 1)) (make b m) = mmFold (fun p => V (2 * (k' + 1) - 1) p.1) lossScore
+            ((genLegal (make b m)).map fun m' => ((make (make b m) m', []) : Pos)) := by
+          have := V_succ (2 * (k' + 1) - 1) (make b m) hne'
+          rwa [show 2 * (k' + 1) - 1 + 1 = 2 * (k' + 1) from by omega] at this
+        rw [e] at h3
+        have hub : mmFold (fun p => V (2 * (k' + 1) - 1) p.1) lossScore
+            ((genLegal (make b m)).map fun m' => ((make (make b m) m', []) : Pos)) ≤ lossScore + mateFull b (k' + 1 + 1) := by
+          apply mmFold_le
+          · unfold mateFull; omega
+          · intro c hc
+            obtain ⟨m', hm', rfl⟩ := List.mem_map.mp hc
+            have := ih (make (make b m) m') (by
+              unfold Small; rw [make_turn, make_turn, make_fullmove, make_fullmove, make_turn]; omega) (hall m' hm')
+            rw [mateFull_grandchild b m m' (k' + 1) h1] at this
+            simp only
+            omega
+        omega
+
+/-- a move after which the opponent's value is at most "mated by the mover's `K+1`-th move" keeps a forced mate in
+`K+1`; `ih` = soundness for smaller depths -/
+theorem keeps_aux (d : Nat) (b : Board) (K : Nat) (m : Move)
+    (ih : ∀ d', d' < d → ∀ b K, Small b d' → mateFull b K ≤ 8388608 → winScore - mateFull b K ≤ V d' b → ForcedMate K b)
+    (hs : Small b (d + 1)) (hK : mateFull b (K + 1) ≤ 8388608)
+    (hv : V d (make b m) ≤ lossScore + mateFull b (K + 1)) : KeepsMate (ForcedMate K) b m := by
+  have hw := winScore_val
+  have hl := lossScore_val
+  obtain ⟨h1, h2⟩ := hs
+  have hK' := hK
+  unfold mateFull at hv hK
+  by_cases hct : genLegal (make b m) = []
+  · left
+    refine ⟨hct, ?_⟩
+    rw [V_term _ _ hct, term_value', make_fullmove] at hv
+    split at hv
+    · assumption
+    · omega
+  · right
+    refine ⟨hct, ?_⟩
+    intro m' hm'
+    cases d with
+    | zero => have := V_zero _ hct; omega
+    | succ d' =>
+      rw [V_succ d' _ hct] at hv
+      have hmem : ((make (make b m) m', []) : Pos) ∈
+          (genLegal (make b m)).map fun m' => ((make (make b m) m', []) : Pos) :=
+        List.mem_map.mpr ⟨m', hm', rfl⟩
+      have h3 := neg_le_mmFold (fun p => V d' p.1) lossScore _ _ hmem
+      simp only at h3
+      apply ih d' (by omega) (make (make b m) m') K
+        (by unfold Small; rw [make_turn, make_turn, make_fullmove, make_fullmove, make_turn]; omega)
+        (by rw [mateFull_grandchild b m m' K h1]; exact hK')
+      rw [mateFull_grandchild b m m' K h1]
+      unfold mateFull
+      omega
+
+/-- soundness: a value in the mate range comes from a forced mate -/
+theorem value_forcedMate : ∀ d b K, Small b d → mateFull b K ≤ 8388608 → winScore - mateFull b K ≤ V d b →
+    ForcedMate K b := by
+  have hw := winScore_val
+  have hl := lossScore_val
+  intro d
+  induction d using Nat.strongRecOn with
+  | ind d ih =>
+    intro b K hs hK hv
+    have hs' := hs
+    obtain ⟨h1, h2⟩ := hs
+    have hb := V_bounds d b hs'
+    by_cases ht : genLegal b = []
+    · rw [V_term _ b ht, term_value'] at hv
+      unfold mateFull at hv hK
+      split at hv <;> omega
+    · cases d with
+      | zero => have := V_zero b ht; unfold mateFull at hv hK; omega
+      | succ d =>
+        cases K with
+        | zero => unfold mateFull at hv; omega
+        | succ K' =>
+          rw [V_succ d b ht] at hv
+          rcases mmFold_attained (fun p => V d p.1) lossScore ((genLegal b).map fun m => ((make b m, []) : Pos))
+            with h | ⟨c, hc, h⟩
+          · unfold mateFull at hv hK; omega
+          · obtain ⟨m, hm, rfl⟩ := List.mem_map.mp hc
+            simp only at h
+            refine ⟨m, hm, ?_⟩
+            exact keeps_aux d b K' m (fun d' hd' => ih d' (by omega)) hs' hK (by omega)
+
+theorem keeps_of_value (d : Nat) (b : Board) (K : Nat) (m : Move) (hs : Small b (d + 1))
+    (hK : mateFull b (K + 1) ≤ 8388608)
+    (hv : V d (make b m) ≤ lossScore + mateFull b (K + 1)) : KeepsMate (ForcedMate K) b m :=
+  keeps_aux d b K m (fun d' _ => value_forcedMate d') hs hK hv
+
+/-! ## The board instance: the root value is strictly inside the score range -/
+
+theorem root_bounds (d : Nat) (b : Board) (only : List String) (hs : Small b (d + 1)) (hfm : 1 ≤ b.fullmove)
+    (hne : (rootMoves b only).isEmpty = false) :
+    lossScore < mm game (d + 1) (b, only) ∧ mm game (d + 1) (b, only) < winScore := by
+  have hw := winScore_val
+  have hl := lossScore_val
+  have hmoves : game.moves (b, only) = rootMoves b only := rfl
+  have hmm : mm game (d + 1) (b, only) = mmFold (mm game d) lossScore (game.children (b, only)) := by
+    simp only [mm, hmoves, hne, Bool.false_eq_true, if_false]; rfl
+  rw [hmm]
+  obtain ⟨h1, h2⟩ := hs
+  constructor
+  · cases hr : rootMoves b only with
+    | nil => rw [hr] at hne; simp at hne
+    | cons m ms =>
+      have hmem : ((make b m, []) : Pos) ∈ game.children (b, only) := by
+        unfold Game.children; rw [hmoves, hr]; exact List.mem_cons_self
+      have h3 := neg_le_mmFold (mm game d) lossScore _ _ hmem
+      have h4 := (V_bounds d (make b m) (small_child ⟨h1, h2⟩ m)).2
+      unfold V at h4
+      rw [make_turn, make_fullmove] at h4
+      omega
+  · have : mmFold (mm game d) lossScore (game.children (b, only)) ≤ winScore - 1 := by
+      apply mmFold_le _ _ _ _ (by omega)
+      intro c hc
+      obtain ⟨m, _, rfl⟩ := List.mem_map.mp hc
+      have h4 := (V_bounds d (make b m) (small_child ⟨h1, h2⟩ m)).1
+      unfold V at h4
+      rw [make_fullmove] at h4
+      show - mm game d (make b m, []) ≤ winScore - 1
+      omega
+    omega
 
 end Inkayaku.SpecSearch
